@@ -77,6 +77,7 @@ func genCase(t *rapid.T) Case {
 		}
 		c.Faults = append(c.Faults, f)
 	}
+	c.H.Rename = gen.MaybeRename(t, c.H.Schema)
 	return c
 }
 
@@ -419,7 +420,7 @@ func execCase(c Case) (res vt.Result) {
 var errSwallowed = errors.New("injected error swallowed")
 
 func checkSnapshot(r *run.Runner, path string, pool []uuid.UUID, suite []models.Query, want oracle.Observation) error {
-	s, err := drive.Open(path, r.H.Schema, r.H.MaxPointSize, cache.NewManager(-1))
+	s, err := drive.OpenNamed(path, r.H.Schema, r.H.MaxPointSize, cache.NewManager(-1), r.H.Rename)
 	if err != nil {
 		return fmt.Errorf("cannot open the file as a killed process would have left it: %v", err)
 	}
